@@ -3,6 +3,7 @@
 // fault kinds, rates, knobs), then its steps.
 #include <string.h>
 
+#include "codec/corrupt.h"
 #include "codec/wire.h"
 #include "core/core.h"
 #include "harness/checks.h"
@@ -212,7 +213,17 @@ void msg_ops(G &g, int nops, bool with_names, bool with_replies, bool forged, bo
       int64_t be = g.r.pct(15);
       int64_t shuffle = g.r.pct(25) ? (int64_t)g.r.range(1, 1000) : 0;
       std::string fs;
-      if (forged && g.r.pct(50)) fs = g.r.pct(40) ? "$u" + std::to_string(g.a_client()) : (g.r.pct(50) ? "org.freedesktop.DBus" : ":9.99");
+      if (forged && g.r.pct(50)) {
+        int fk = (int)g.r.below(100);
+        // somebody else's name, the bus's, a made-up one, the sender's own, or a near miss of its own
+        // (":1.1" -> ":1.10", ":1.12" -> ":1.1"): the stamp must be the true name whatever the client wrote
+        if (fk < 30) fs = "$u" + std::to_string(g.a_client());
+        else if (fk < 45) fs = "org.freedesktop.DBus";
+        else if (fk < 60) fs = ":9.99";
+        else if (fk < 70) fs = "$u" + std::to_string(c);
+        else if (fk < 90) fs = "$u" + std::to_string(c) + "+" + std::to_string(g.r.below(100));
+        else fs = "$u" + std::to_string(c) + "-";
+      }
       std::vector<std::string> s = {dest, path, iface, member, err, fs};
       int nargs = (int)g.r.below(3);
       for (int k = 0; k < nargs; k++) s.push_back("r:" + std::to_string(g.r.below(100000)));
@@ -510,8 +521,13 @@ Plan gen_c13(uint64_t seed, bool th) {
     else if (x < 72) g.add(g.mk("rmmatch", c, {-1}, {rules[g.r.below(rules.size())]}));
     else if (x < 86) {
       // calls that stay unanswered for a while: they occupy reply slots
-      std::vector<std::string> s = {"$u" + std::to_string(g.a_client()), "/", "com.example.Iface", "Do", "", ""};
+      static const char *mem[] = {"Do", "Get", "Frob", "Query", "Update", "Refresh", "Activate", "Configure"};   // every alignment of the header's end
+      std::vector<std::string> s = {"$u" + std::to_string(g.a_client()), "/", "com.example.Iface", g.r.pct(40) ? mem[g.r.below(8)] : "Do", "", ""};
       if (g.r.pct(12)) s.push_back("s:" + std::string((size_t)g.r.range(200, 2500), 'x'));   // around the size limit
+      if (g.p.cfg.count("lim.msgsize") && g.r.pct(25))
+        // exactly at the boundary: the limit itself, a few bytes below, 1..9 bytes above
+        g.add(g.mk("send", c, {1, g.r.pct(15) ? 1 : 0, -1, 0, 0, 0, 0, 0, 0, 0, 0, 0, (int64_t)g.r.range(0, 12) - 3}, s));
+      else
       g.add(g.mk("send", c, {1, g.r.pct(15) ? 1 : 0, -1}, s));
     } else if (x < 94) g.add(g.mk("reply", c, {(int64_t)g.r.below(4), (int64_t)g.r.below(2), -1}));
     else {
@@ -625,6 +641,13 @@ Plan gen_c10(uint64_t seed, bool th) {
     int h = hostile[hi];
     if (x < 40) {
       std::string b = valid_message_bytes(g, hserial[hi]++);
+      if (g.r.pct(25)) {
+        // a message that is well-formed but for one structural defect (out-of-range boolean alone or inside an
+        // array, bad name / path / signature value, duplicate or wrong-typed field, ...): the validator's job
+        wiregen::Rng wr(g.r.next());
+        wire::ParseResult pr = wire::parse(reinterpret_cast<const uint8_t *>(b.data()), b.size(), wire::Limits());
+        if (pr.status == wire::P_OK) b = wiregen::corrupt_structured(wr, pr.msg);
+      } else
       if (g.r.pct(70)) b = mutate_bytes(g, b);
       g.add(g.mk("raw", h, {g.r.pct(80) ? -1 : (int64_t)g.r.range(1, 30), 0}, {b}));
     } else if (x < 50) {
@@ -1096,7 +1119,7 @@ Plan gen_c19(uint64_t seed, bool th) {
       int flags = g.r.pct(12) ? wire::FL_NO_AUTO_START : (g.r.pct(12) ? wire::FL_NO_REPLY_EXPECTED : 0);
       // (some carry injected header fields: a held message must reach the service as sanitised as any other)
       int64_t unk = g.r.pct(20) ? (int64_t)g.r.range(11, 255) : 0, ci = g.r.pct(12) ? (int64_t)g.r.range(1, 9) : 0;
-      g.add(g.mk("send", from, {type, flags, g.deliver_mode(), 0, unk, ci}, {dest, "/svc", "com.example.Iface", "Work", "", g.r.pct(10) ? ":9.99" : ""}));
+      g.add(g.mk("send", from, {type, flags, g.deliver_mode(), 0, unk, ci}, {dest, "/svc", "com.example.Iface", "Work", "", g.r.pct(10) ? (g.r.pct(50) ? std::string(":9.99") : "$u" + std::to_string(from) + "+" + std::to_string(g.r.below(10))) : std::string("")}));
       started++;
     } else if (x < 46) {
       g.add(g.mk("query", from, {-1}, {"StartServiceByName", g.r.pct(85) ? a_act() : (g.r.pct(50) ? g.a_name() : std::string("com.example.nosuch"))}));
@@ -1169,6 +1192,7 @@ Plan gen_c14(uint64_t seed, bool th) {
       g.p.cfg["reload.policy.spec"] = pol::encode(p);
     }
     if (g.r.pct(50)) g.p.cfg["reload.activatable"] = g.r.pct(50) ? "com.example.act1" : "com.example.act1,com.example.act2";
+    if (g.r.pct(40)) g.p.cfg["reload.include"] = g.r.pct(50) ? "1" : "2";
     g.add(g.mk("query", c, {-1}, {"ReloadConfig", ""}));
   }
   else if (op < 22) g.add(g.mk("reqname", c, {(int64_t)g.r.below(8), -1}, {g.a_name()}));
